@@ -536,12 +536,37 @@ func (t *c03) dhcp(r *rand.Rand) {
 		t.viol("encode:DHCP4:fields(view)", "library view reads back different values", cs)
 		return
 	}
+	// the BOOTP legacy fields: what the setters write the getters read back, and nothing around them moves
+	sn := []byte(exactLabel(r, []int{0, 1, 10, 63, 64}[r.Intn(5)]))
+	fl := []byte(exactLabel(r, []int{0, 1, 17, 127, 128}[r.Intn(5)]))
+	before := append([]byte(nil), out...)
+	if pi := c.Guard("C03", func() any { cs["index"] = t.idx; return cs }, func() { v.SetSName(sn); v.SetFile(fl) }); pi != nil {
+		return
+	}
+	if !bytes.Equal(v.SName(), sn) || !bytes.Equal(v.File(), fl) {
+		t.viol("encode:DHCP4:sname-file", fmt.Sprintf("SetSName(%d bytes) / SetFile(%d bytes) read back as %q / %q", len(sn), len(fl), v.SName(), v.File()), cs)
+		return
+	}
+	if !bytes.Equal(out[:44], before[:44]) || !bytes.Equal(out[236:], before[236:]) {
+		t.viol("encode:DHCP4:sname-file", "SetSName / SetFile changed bytes outside the two fields", cs)
+		return
+	}
+	c.Obs("dhcp_legacy_fields_round_trips", 1)
 	keys := make([]int, 0, len(want))
 	for k := range want {
 		keys = append(keys, int(k))
 	}
 	sort.Ints(keys)
 	c.Class(fmt.Sprintf("dhcp nopts=%d order=%d maskrouter=%v", len(want)/4*4, len(orderCopy)/4*4, m.OptIndex(1) >= 0 && m.OptIndex(3) >= 0))
+}
+
+// exactLabel returns n letters.
+func exactLabel(r *rand.Rand, n int) string {
+	b := make([]byte, n)
+	for i := range b {
+		b[i] = byte('a' + r.Intn(26))
+	}
+	return string(b)
 }
 
 func wireName(name string) []byte {
